@@ -38,6 +38,11 @@ def edge_property(kind: str, to: str) -> dict[str, Any]:
 SCHEMA_KINDS = ("allOf", "allOfReq", "addl", "alias")
 
 
+def prop_key(doc: dict[str, Any], i: int) -> str:
+    """JSON key of the property that carries edge i: `p<i>` unless the document names its keys (doc["keys"]: str(i) -> key)."""
+    return (doc.get("keys") or {}).get(str(i), f"p{i}")
+
+
 def graph_schemas(doc: dict[str, Any]) -> dict[str, Any]:
     """Docs.tla graph document -> components.schemas (insertion order = declaration order)."""
     schemas: dict[str, Any] = {}
@@ -54,7 +59,7 @@ def graph_schemas(doc: dict[str, Any]) -> dict[str, Any]:
                 members.append(ref(e["to"]))
             elif e["kind"] == "allOfReq":
                 # a required-only member listed BEFORE the member that declares the properties
-                tgt_keys = ["id"] + [f"p{k}" for k, x in enumerate(doc["edges"], start=1) if x["from"] == e["to"] and x["kind"] not in SCHEMA_KINDS]
+                tgt_keys = ["id"] + [prop_key(doc, k) for k, x in enumerate(doc["edges"], start=1) if x["from"] == e["to"] and x["kind"] not in SCHEMA_KINDS]
                 members.append({"required": tgt_keys})
                 members.append(ref(e["to"]))
             elif e["kind"] == "addl":
@@ -64,9 +69,9 @@ def graph_schemas(doc: dict[str, Any]) -> dict[str, Any]:
         for i, e in mine:
             if e["kind"] in SCHEMA_KINDS:
                 continue
-            node["properties"][f"p{i}"] = edge_property(e["kind"], e["to"])
+            node["properties"][prop_key(doc, i)] = edge_property(e["kind"], e["to"])
             if e.get("req"):
-                node["required"].append(f"p{i}")
+                node["required"].append(prop_key(doc, i))
         schemas[n] = node
     return schemas
 
